@@ -218,3 +218,28 @@ Proof.
   split; [intros F t k; apply onepu_z; exact F |].
   split; [apply onepu_kw_uses_tag | apply onepu_direct_no_tag].
 Qed.
+
+(* ---------- DEFLATE framing: compress emits a COMPLETE raw RFC 1951 stream ---------- *)
+Section Deflate.
+Variable O : oracles.
+(* a strict raw inflater (zlib.decompressobj(-15)): (output, reached end of stream, unused trailing data) *)
+Variable raw_inflate : bytes -> res (bytes * bool * bytes).
+(* the zlib contract (RFC 1950): zlib.compress(s) = header ++ complete raw DEFLATE stream of s ++ Adler-32 *)
+Hypothesis zlib_contract : forall s z, o_deflate O s = Ok z ->
+  exists hdr raw adler, spec_zlib_format z hdr raw adler /\ spec_complete_raw raw_inflate raw s.
+
+Lemma deflate_raw s c : zip_compress O s = Ok c -> spec_complete_raw raw_inflate c s.
+Proof.
+  unfold zip_compress. intro H. inv_bind H. inversion H; subst.
+  destruct (zlib_contract s x E) as [hdr [raw [adler [[Z [LH L]] R]]]]. subst x.
+  rewrite (strip_zlib_spec hdr raw adler LH L). exact R.
+Qed.
+
+(* and that is what goes into the AEAD when "zip" is in the protected header *)
+Lemma deflate_raw_message g prot m c :
+  dmem prot (s_ "zip") = true -> zip_plain O g prot m = Ok c -> spec_complete_raw raw_inflate c m.
+Proof.
+  intros Z H. unfold zip_plain in H. rewrite Z in H. inv_bind H. apply deflate_raw. exact H.
+Qed.
+
+End Deflate.
